@@ -5,6 +5,7 @@ package crsim
 import (
 	"fmt"
 	"sort"
+	"strconv"
 	"strings"
 	"time"
 
@@ -12,6 +13,7 @@ import (
 	"crsim/simrt"
 
 	"github.com/anishathalye/porcupine"
+	"github.com/grafana/carbon-relay-ng/validate"
 )
 
 func init() { Register("C19", scenC19) }
@@ -27,6 +29,7 @@ type c19Plan struct {
 
 	Churn        []string `json:"unrelated_entries_added_and_removed,omitempty"`
 	ChurnAfterUs int      `json:"churn_after_us,omitempty"`
+	ChurnSeries  int      `json:"other_series_accepted_in_between,omitempty"`
 }
 
 type c19In struct {
@@ -129,6 +132,14 @@ func scenC19(x *Exec) {
 			p.Churn = append(p.Churn, churnKinds[g.Pick(len(churnKinds))])
 		}
 		p.ChurnAfterUs = g.Intn(200)
+	}
+	if g.Bool(0.012) {
+		// series churn: between two points of one series, several hundred thousand other series are accepted (a relay in front of
+		// an autoscaling fleet sees that within hours); the newest accepted timestamp of the idle series must not be forgotten
+		p.ChurnSeries = []int{300000, 600000, 1100000}[g.Pick(3)]
+		cfg.PreemptP, cfg.SwitchP, cfg.TimeRaceP = 0, 0, 0
+		cfg.MaxSteps *= 4
+		cfg.MaxReal = 3 * time.Minute
 	}
 	x.Out.Sample = p
 	cfg.Horizon = 10 * time.Minute
@@ -263,6 +274,46 @@ func scenC19(x *Exec) {
 				s.Fail(prop+":report", "rejected series %q is missing from the bad-metrics report (has %v)", n, reported)
 				return
 			}
+		}
+		if p.ChurnSeries > 0 {
+			newest := map[string]uint32{}
+			for _, r := range history {
+				if delivered[r.line] == 1 && r.in.ts > newest[r.in.canon] {
+					newest[r.in.canon] = r.in.ts
+				}
+			}
+			buf := make([]byte, 0, 32)
+			for i := 0; i < p.ChurnSeries; i++ {
+				buf = append(buf[:0], "churn.fleet."...)
+				buf = strconv.AppendInt(buf, int64(i), 36)
+				if err := validate.Ordered(buf, 2000); err != nil {
+					s.Fail(prop+":not-linearizable", "the first point of the new series %q was rejected: %v", buf, err)
+					return
+				}
+				if i%512 == 0 {
+					simrt.Yield("churning")
+				}
+			}
+			simrt.Yield("churned")
+			before := len(bt.Caps[0].Calls)
+			var names2 []string
+			for name := range newest {
+				names2 = append(names2, name)
+			}
+			sort.Strings(names2)
+			for _, name := range names2 {
+				ts := newest[name]
+				line := fmt.Sprintf("%s 424242 %d", name, ts)
+				bt.T.Dispatch([]byte(line))
+				simrt.Yield("dispatched")
+			}
+			simrt.Sleep(10 * time.Millisecond)
+			simrt.Quiesce()
+			if got := len(bt.Caps[0].Calls); got != before {
+				s.Fail(prop+":forgotten-after-churn", "after %d other series had been accepted, a point of %q with the timestamp of its newest accepted point was forwarded again: %q", p.ChurnSeries, names2, string(bt.Caps[0].Calls[before].copy))
+				return
+			}
+			s.Probe("c19.series_churn")
 		}
 		x.Out.Nontrivial = rejected > 0 && rejected < len(history)
 		x.Out.StateSig = fmt.Sprintf("ops=%d rejected=%d names=%d clients=%d", len(history), rejected, len(names), len(p.Clients))
